@@ -74,12 +74,14 @@ def string_scenarios():
     for v in (b"9", b"99", b"100", b"-1", b"0", b"1", b"ab"):
         for pname, setup in _string_paths(b"a", v):
             for read in ([b"GET", b"a"], [b"MGET", b"a", b"nosuch"], [b"GETRANGE", b"a", b"0", b"-1"]):
+                if read[0] != b"GET" and v in (b"-1", b"0", b"1"):
+                    continue
                 for w in _string_writes(b"a", v, b"b"):
                     _sc(out, "string", setup, read, w)
     # a NEIGHBOUR: two keys whose values were produced by the same path, with adjacent / equal numeric values (values cut from one shared
     # buffer or one shared table overlap in memory: a write through one key reaches the bytes behind the other: seeded change
     # C01-shared-small-ints-append) - the reply for b is held while a is written, and the other way round
-    for n in (0, 1, 2, 9, 10, 99, 100, 999, 1000, 9998):
+    for n in (0, 1, 9, 10, 99, 999, 9998):
         for d in (1, 0, -1):
             m = n + d
             if m < 0:
